@@ -521,7 +521,7 @@ class Gen:
     # ---- driver
     def run(self):
         self.op_new()
-        if self.presets:
+        if self.presets is True or (self.presets == 'some' and self.rng.random() < 0.3):
             for a in range(self.na):
                 top = 0xFFFFFFFF
                 self.do(('preset', a, top - self.rng.randrange(0, 4), top - self.rng.randrange(0, 6)))
